@@ -80,7 +80,7 @@ class C15(LoopCheck):
     flows = ("plain", "resume")
     thorough_schedules = ["fixed1", "fixed2", "adaptive_half"]
     adaptive_N3 = ()
-    required_labels = ["c15/history", "c15/final", "c15/checkpoint", "c15/history@resumed", "c15/final@resumed", "c15/history@aspire", "c15/final@resume_constructor", "c15/api/dtype", "c15/api/values", "c15/api/optional_fields"]
+    required_labels = ["c15/history", "c15/final", "c15/checkpoint", "c15/history@resumed", "c15/final@resumed", "c15/history@aspire", "c15/final@resume_constructor", "c15/api/dtype", "c15/api/values", "c15/api/optional_fields", "c15/initial_population"]
     outside = LoopCheck.outside + [
         "what NumPy, PyTorch and JAX do when an array crosses from one to the other (every ordered pair), the output-namespace option, proposal outputs consumed in another namespace: the symbolic namespace is both source and target of every conversion here",
     ]
@@ -105,6 +105,9 @@ class C15(LoopCheck):
         # file carries the precision, and the instance rebuilt by resume_from_file works in it
         out.append({"name": "aspire_file-fixed2-float32", "flow": "resume_file", "schedule": "fixed2", "n_final": False, "sampler": "MiniPCNSMC",
                     "N": 2, "d": 1, "T": 2, "D": 4, "timeout_ms": 120000, "dtype": "float32"})
+        # FP sort: the prior may be -inf per point, so the initial draw needs several proposal
+        # batches (rejection, concatenation, trimming) -- in the requested precision throughout
+        out.append({"name": "initial-fp-float32", "kind": "initial_fp", "flow": "initial_fp", "N": 2, "d": 1, "rounds": 3, "dtype": "float32", "check_c15": True, "timeout_ms": 120000})
         for cls in ("BaseSamples", "Samples", "SMCSamples"):
             for sub in ("all", "none"):
                 for op in API_OPS:
@@ -115,11 +118,17 @@ class C15(LoopCheck):
     def ctx_for(self, cfg, seed):
         if cfg.get("kind") == "api":
             return sx.Ctx(self.pid, seed=seed, timeout_ms=cfg.get("timeout_ms", 30000))
+        if cfg.get("kind") == "initial_fp":
+            return sx.Ctx(self.pid, seed=seed, timeout_ms=cfg.get("timeout_ms", 120000), sort="F", fp_bits=64)
         return super().ctx_for(cfg, seed)
 
     def harness(self, cfg):
         if cfg.get("kind") == "api":
             return self.h_api(cfg)
+        if cfg.get("kind") == "initial_fp":
+            from harness.c10 import C10
+
+            return C10().h_initial(cfg)
         return super().harness(cfg)
 
     # ------------------------------------------------------------------
@@ -197,7 +206,17 @@ class C15(LoopCheck):
     def replay(self, cex):
         if cex["cfg"].get("kind") == "api":
             return replay_api(cex)
+        if cex["cfg"].get("kind") == "initial_fp":
+            from harness.c10 import replay_initial
+
+            return replay_initial(cex)
         return super().replay(cex)
+
+    def to_cex(self, fl):
+        if fl["cfg"].get("kind") in ("api", "initial_fp"):
+            env = {k: v for k, v in fl["env"].items() if k != "__purified__"}
+            return {"cfg": fl["cfg"], "label": fl["label"], "detail": fl.get("detail"), "env": env}
+        return super().to_cex(fl)
 
     def finding_of(self, cex):
         cfg = cex["cfg"]
